@@ -201,6 +201,41 @@ Definition hex_of_N (n : N) : string := hex_of_N_aux (S (N.to_nat (N.log2 n))) n
 Definition str_eqb := String.eqb.
 Definition is_empty (s : string) : bool := match s with EmptyString => true | _ => false end.
 
+(* ---- strings.ToValidUTF8(s, "") : every byte that does not belong to a well-formed UTF-8 sequence is dropped
+   (Go decodes an ill-formed sequence as one byte of width 1).  [lead_info n] = number of continuation bytes after lead
+   byte n and the accepted range of the FIRST continuation byte (Unicode table 3-7, as in unicode/utf8). *)
+Definition lead_info (n : N) : option (nat * N * N) :=
+  if (n <? 128)%N then Some (0%nat, 0%N, 0%N)
+  else if in_range 194 223 n then Some (1%nat, 128%N, 191%N)
+  else if (n =? 224)%N then Some (2%nat, 160%N, 191%N)
+  else if in_range 225 236 n || in_range 238 239 n then Some (2%nat, 128%N, 191%N)
+  else if (n =? 237)%N then Some (2%nat, 128%N, 159%N)
+  else if (n =? 240)%N then Some (3%nat, 144%N, 191%N)
+  else if in_range 241 243 n then Some (3%nat, 128%N, 191%N)
+  else if (n =? 244)%N then Some (3%nat, 128%N, 143%N)
+  else None.
+Fixpoint conts_ok (k : nat) (lo hi : N) (s : string) : bool :=
+  match k with
+  | O => true
+  | S k' => match s with
+            | String c r => in_range lo hi (byte_of c) && conts_ok k' 128 191 r
+            | EmptyString => false
+            end
+  end.
+Fixpoint to_valid_utf8_aux (skip : nat) (s : string) : string :=
+  match s with
+  | EmptyString => EmptyString
+  | String c r =>
+      match skip with
+      | S k => String c (to_valid_utf8_aux k r)
+      | O => match lead_info (byte_of c) with
+             | Some (k, lo, hi) => if conts_ok k lo hi r then String c (to_valid_utf8_aux k r) else to_valid_utf8_aux 0 r
+             | None => to_valid_utf8_aux 0 r
+             end
+      end
+  end.
+Definition to_valid_utf8 (s : string) : string := to_valid_utf8_aux 0 s.
+
 (* insertion sort with bytewise order (= sort.Strings) *)
 Fixpoint insert_sorted (x : string) (l : list string) : list string :=
   match l with
